@@ -287,7 +287,7 @@ def schedules(ctx, model_ok, tmp):
               ("purge-x1", [("B", "put-same")], {1: [("B", "put-same")]}),
               ("purge-x1", [("B", "purge-x2-late")], {2: [("B", "purge-x2-late")]}),
               ("purge-x1", [("B", "purge-x2-late")], {3: [("B", "purge-x2-late")]})]
-    n_cases = 18 if ctx.quick() else 1500
+    n_cases = 18 if ctx.quick() else 120
     for n in range(n_cases + len(corpus)):
         if n < len(corpus):
             a_op, others, at = corpus[n]
@@ -573,7 +573,7 @@ def thread_races(ctx, tmp, template):
         pass
 
     # ---- 1. lock wait
-    for rep in range(2 if ctx.quick() else 8):
+    for rep in range(2 if ctx.quick() else 4):
         root = fresh("t_lock")
         a_in, res = threading.Event(), {}
 
@@ -612,7 +612,7 @@ def thread_races(ctx, tmp, template):
 
     # ---- 2. a failed block and a put into the same slot
     orig_rollback = DatastoreTransaction.rollback
-    for rep in range(2 if ctx.quick() else 6):
+    for rep in range(2 if ctx.quick() else 3):
         root = fresh("t_slot")
         a_in, b_done, res = threading.Event(), threading.Event(), {}
         a_thread = []
